@@ -23,6 +23,7 @@ pub struct Snap
     pub dirs : BTreeSet<String>,
     pub inexec : String,
     pub clock : u64,
+    pub takes : Vec<(String, String)>,
 }
 
 #[derive(Default)]
@@ -40,6 +41,7 @@ pub struct Fs
     pub in_command : Option<String>,
     pub touched : BTreeSet<String>,
     pub overw : Vec<String>,
+    pub takes : Vec<(String, String)>,
     pub snap_on : bool,
     pub snaps : Vec<Snap>,
     pub nmut : usize,
@@ -66,7 +68,7 @@ impl Fs
         if self.snap_on
         {
             let inexec = self.in_command.clone().unwrap_or_default();
-            let s = Snap{label : label, files : self.files.clone(), dirs : self.dirs.clone(), inexec : inexec, clock : self.clock};
+            let s = Snap{label : label, files : self.files.clone(), dirs : self.dirs.clone(), inexec : inexec, clock : self.clock, takes : self.takes.clone()};
             self.snaps.push(s);
         }
     }
@@ -322,6 +324,7 @@ impl System for VSystem
         else if from_cache
         {
             let n = fs.label_of_ticket(&from[self.dir.len() + 7..]);
+            if result.is_ok() { fs.takes.push((to.to_string(), n.clone())); }
             fs.emit(json!({"a" : "step", "t" : t, "op" : "take", "p" : to, "n" : n, "ok" : result.is_ok()}));
         }
         result
